@@ -121,7 +121,9 @@ namespace vh
             typename G::triangles_type tri = xt::zeros<size_t>({ nt, size_t(3) });
             for (size_t i = 0; i < np; ++i)
                 for (size_t j = 0; j < 2; ++j)
-                    pts(i, j) = d["pts"][i][j].as_double() * sc;
+                    // "off": the mesh translated (projected coordinates far from the origin); the sum is exact
+                    // for the offsets and scales generated, and nothing the properties speak of depends on it
+                    pts(i, j) = d["pts"][i][j].as_double() * sc + (d.has("off") ? d["off"][j].as_double() : 0.0);
             for (size_t i = 0; i < nt; ++i)
                 for (size_t j = 0; j < 3; ++j)
                     tri(i, j) = static_cast<size_t>(d["tri"][i][j].as_int());
